@@ -42,13 +42,26 @@ pub struct C02;
 // operator view of a realisation
 // =====================================================================================
 
+/// A hasher that is sensitive to the *sequence of calls*, not only to the concatenation of the bytes
+/// (like FxHash / ahash / foldhash, unlike SipHash): equal terms must hash identically under any
+/// `Hasher`, hence feed it the same calls.
+struct SeqHasher(std::collections::hash_map::DefaultHasher);
+impl Hasher for SeqHasher {
+    fn write(&mut self, bytes: &[u8]) {
+        self.0.write_usize(bytes.len());
+        self.0.write(bytes);
+    }
+    fn finish(&self) -> u64 {
+        self.0.finish()
+    }
+}
 fn std_digest<T: Hash + ?Sized>(t: &T) -> u64 {
-    let mut h = std::collections::hash_map::DefaultHasher::new();
+    let mut h = SeqHasher(std::collections::hash_map::DefaultHasher::new());
     t.hash(&mut h);
     h.finish()
 }
 fn term_digest<T: Term>(t: &T) -> u64 {
-    let mut h = std::collections::hash_map::DefaultHasher::new();
+    let mut h = SeqHasher(std::collections::hash_map::DefaultHasher::new());
     Term::hash(t, &mut h);
     h.finish()
 }
